@@ -97,6 +97,7 @@ def finish(pid, tier, seed, merged, problems, wall_s, replay_mode=False):
             "exhaustive": False,
             "oracle_decisions": int(oracle_decisions),
             "monitors": merged["monitors"],
+            "decisions_by_facet": {k: int(v) for k, v in sorted(merged.get("facets", {}).items())},
             "nontrivial_cases": int(merged["nontrivial"]),
             "trivial_cases": int(merged["trivial"]),
             "distinct_class_signatures": len(merged["sigs"]),
